@@ -44,7 +44,7 @@ def strategy(tier):
             "base": st.lists(st.tuples(key, val), max_size=4, unique_by=lambda kv: kv[0]),
             "ops": st.lists(op, max_size=12),
             "do_deletes": st.booleans(),
-            "exc": st.integers(0, 3),
+            "exc": st.integers(0, 4),
             "in_handler": st.booleans(),
             "wrapped_kind": st.sampled_from([0, 0, 1]),
         }
@@ -68,7 +68,7 @@ def exhaustive(tier):
                 for base in bases:
                     for dd in (False, True):
                         yield {"base": base, "ops": list(seq), "do_deletes": dd,
-                               "exc": (length + len(base)) % 3,
+                               "exc": (length + len(base)) % 5,
                                "in_handler": (length + len(base) + int(dd)) % 2 == 1}
 
     yield (f"all op sequences of length<={n} over 2 keys x 4 pre-existing dbs x do_deletes", gen())
@@ -164,7 +164,7 @@ def run_case(case):
     info.nontrivial = mixed and read_after_del
 
     exc_kind = case.get("exc", 0)
-    info.label(["exit-by-Exception", "exit-by-BaseException", "exit-by-KeyboardInterrupt", "exit-by-falsy-exception"][exc_kind % 4])
+    info.label(["exit-by-Exception", "exit-by-BaseException", "exit-by-KeyboardInterrupt", "exit-by-falsy-exception", "exit-by-KeyError"][exc_kind % 5])
     if case.get("wrapped_kind"):
         # the wrapped db is a defaultdict: item access to an absent key would insert, so the
         # reads of this case are done with `in` (which must never insert)
